@@ -192,13 +192,13 @@ CHECKS["C11"] = {
     "rule": "(tables, exhaustive) psi := forward table[512] must satisfy psi^1024 = -1; all 1024 forward entries == psi^bitrev10(i), "
             "all 1024 inverse entries == psi^-bitrev10(i), all 11 stored n^-1 constants (entry 0 and unused entries included, through "
             "the accessor hook). (products) for every n in {1,2,4,...,1024}: all n unit impulses times a random polynomial and times "
-            "a negated impulse, all-(q-1), alternating, zero, and seeded random pairs: intt(ntt(a)) == a, "
+            "a negated impulse, all-(q-1), alternating, zero, and seeded random pairs: intt(ntt(a)) == a, (cross-size) one thread walks through all sizes in ascending, descending and shuffled order with the SAME low-degree coefficients embedded in every length (constants, zero, short polynomials), so that state kept between transforms is exposed; "
             "intt(ntt(a) .* ntt(b)) == schoolbook negacyclic product mod q, outputs canonical. distinct_nontrivial = table entries + "
             "(n, impulse index) cells + sizes.",
     "assumptions": ["reference schoolbook product and modular exponentiation in the harness"],
     "exhaustive": True,
     "exhaustive_scope": "the twiddle tables and n^-1 constants are checked completely; the transforms are linear, so the n impulses per size determine them given exact field arithmetic (C12); random pairs are samples",
-    "legs": [{"name": "tables"}, {"name": "products"}],
+    "legs": [{"name": "tables"}, {"name": "products"}, {"name": "cross-size"}],
     "technique": "exhaustive table monitor + differential monitor against a schoolbook reference over all impulses and random pairs for every size",
     "level_text": "Tables complete; transforms checked on a basis of the input space plus random samples for all 11 sizes.",
     "level_note": "relies on C12 for the exactness of the field operations used inside the butterflies",
@@ -208,16 +208,16 @@ CHECKS["C13"] = {
     "title": "floating-point FFT accuracy, split/merge inverse",
     "rule": "(table, exhaustive) every entry of the complex twiddle table within 2^-50 of exp(i*pi*bitrev10(k)/1024). (accuracy) for "
             "every n in {2,...,1024}: all n impulses of magnitude 2^14 times a random b, constant +-2^14 x 2^10, alternating signs, and "
-            "seeded random integer vectors with |a_i| <= 2^14, |b_i| <= 2^10 (and smaller ranges): ||ifft(fft(a)) - a||_inf <= 2^-30 ||a||, "
+            "seeded random integer vectors with |a_i| <= 2^14, |b_i| <= 2^10 (and smaller ranges) and random non-integer reals with 20 fractional bits in the same range (exact product still computable in i128): ||ifft(fft(a)) - a||_inf <= 2^-30 ||a||, "
             "||ifft(fft(a).fft(b)) - a*b||_inf <= 2^-30 ||a|| ||b|| where a*b is the exact integer negacyclic product (i128), "
             "merge(split(F)) == F and split(fft(a)) == (fft(a_even), fft(a_odd)) to 2^-30 relative. The worst observed relative "
             "errors are reported (about 1e-15 on the unchanged tree, i.e. the tolerance is 2^20 times the observed error). "
             "distinct_nontrivial = table entries + (n, impulse) cells + sizes.",
     "assumptions": ["libm cos/sin accurate to a few ulp for the table reference", "inputs are integer-valued so the exact product is computable"],
-    "legs": [{"name": "table"}, {"name": "accuracy"}],
+    "legs": [{"name": "table"}, {"name": "accuracy"}, {"name": "cross-size"}],
     "technique": "differential monitor against exact integer arithmetic with the property's error bound; exhaustive table monitor",
     "level_text": "Table complete; accuracy sampled over all sizes with extreme and random inputs in the stated magnitude range.",
-    "level_note": "real (non-integer) inputs are covered only through linearity",
+    "level_note": "real inputs are dyadic rationals with 20 fractional bits; other reals are covered through linearity",
 }
 
 CHECKS["C14"] = {
@@ -279,7 +279,7 @@ CHECKS["C17"] = {
             "f*G' - g*F' == f*G - g*F exactly (i128); a second reduction of an Ok result is the identity in both versions. "
             "Inputs: the committed witnesses of the known finding first; n in {2,...,1024}, (f,g) Gaussian of the key-generation "
             "width and of widths 0.6..6, (F,G) = (F0,G0) + k*(f,g) with |F0|,|G0| <= 127 and k dense/sparse/spiky/zero of magnitude "
-            "2^2..2^20, scaled until all coefficients are below 2^24, never (F,G) = 0; plus the PRODUCTION inputs captured by a hook "
+            "2^2..2^20 (also (F,G) shorter than (f,g): tiny (F0,G0) with k = 0, and truncated fractions c*(f,g)), scaled until all coefficients are below 2^24, never (F,G) = 0; plus the PRODUCTION inputs captured by a hook "
             "event at the call site inside key generation (unreduced pairs of size about 2^20). An Err is classified as the known "
             "finding babai-tie-cycle only with its certificate (both versions Err with identical states; three consecutive calls "
             "give S1, S2, S1, S1 != S2; equation preserved); any other Err, disagreement, equation or idempotence failure is a "
@@ -319,9 +319,13 @@ CHECKS["C10"] = {
             "E||s||^2 = 2n sigma^2; pooled second moments along both row families and along the Gram-Schmidt directions = sigma^2 "
             "(z-scores with EMPIRICAL standard errors from per-signature values, alarm |z| >= 6); each of the 16 bins (6.5); every "
             "single direction's second moment (chi-square with M dof) and mean (7); every emitted signature within the bound. "
-            "Family-wise false-alarm probability per run below 1e-6. distinct_nontrivial = distinct (key, direction) pairs tested.",
+            "Family-wise false-alarm probability per run below 1e-6. Second leg (ffsampling-trace, deterministic): the hook log gives centre, width and output of every "
+            "integer-sampler call of a signing attempt; an independent Algorithm 11 (own natural-order FFT, split/merge and ffLDL tree "
+            "built from the basis) is replayed on the recorded OUTPUTS and must predict every recorded centre (1e-6 relative) and "
+            "width (1e-9): an exact oracle for the tree (L entries and leaves) and the recursion, including attempts after forced "
+            "norm rejections. distinct_nontrivial = distinct (key, direction) pairs tested + signing attempts replayed.",
     "assumptions": ["resolution: about 0.5% on pooled second moments, 1% per bin, 10% per single direction (quick); 3x finer thorough", "reference codec/hash/ring and f64 Gram-Schmidt of the harness (the latter cross-validated against the tree leaves in C04)"],
-    "legs": [{"name": "transcripts"}],
+    "legs": [{"name": "transcripts"}, {"name": "ffsampling-trace"}],
     "technique": "offline statistical checker over a recorded transcript of signature vectors: moment tests along the secret basis rows and Gram-Schmidt directions with empirical standard errors",
     "level_text": "Distributional property decided statistically on transcripts of thousands of signatures per key, in 4n directions per key.",
     "level_note": "anisotropy below the stated resolution, directions outside the 4n tested and keys outside the pool are not observable",
